@@ -8,6 +8,6 @@ CONSTANTS
     MaxFragLen = 2
     MaxParts = 3
     Algo = "repaired"
-INVARIANTS CursorRefinesEqual CursorsInRange RenderIndependentOfSplit EquivalenceInv
+INVARIANTS CursorRefinesEqual CursorsInRange RenderIndependentOfSplit EquivalenceInv ChannelsAgree
 PROPERTY Progress
 CHECK_DEADLOCK FALSE
